@@ -251,6 +251,104 @@ DescTable == [
     xpath_string     |-> [t |-> {"http_hcl", "http_yaml"}, at |-> 4, v |-> "reject"],
     xpath_bool       |-> [t |-> {"http_hcl", "http_yaml"}, at |-> 4, v |-> "reject"],
     xpath_invalid    |-> [t |-> {"http_hcl", "http_yaml"}, at |-> 4, v |-> "reject"],
+    \* syntax families (round 4 growth): grammar violations of the description text are rejected while it is read;
+    \* legal layouts (CRLF, YAML aliases) are delivered; what the grammar allows but the statement does not pin, and
+    \* malformed DATA files of the variable sources, are `lax`: an error at some stage or a normal run - never a crash
+    hcl_unclosed_block       |-> [t |-> {"http_hcl", "grpc_hcl"}, at |-> 1, v |-> "reject"],
+    hcl_extra_close          |-> [t |-> {"http_hcl", "grpc_hcl"}, at |-> 1, v |-> "reject"],
+    hcl_unclosed_string      |-> [t |-> {"http_hcl", "grpc_hcl"}, at |-> 1, v |-> "reject"],
+    hcl_unclosed_heredoc     |-> [t |-> {"http_hcl", "grpc_hcl"}, at |-> 1, v |-> "reject"],
+    hcl_unclosed_template    |-> [t |-> {"http_hcl", "grpc_hcl"}, at |-> 1, v |-> "reject"],
+    hcl_unclosed_list        |-> [t |-> {"http_hcl", "grpc_hcl"}, at |-> 1, v |-> "reject"],
+    hcl_missing_eq           |-> [t |-> {"http_hcl", "grpc_hcl"}, at |-> 1, v |-> "reject"],
+    hcl_bare_word            |-> [t |-> {"http_hcl", "grpc_hcl"}, at |-> 1, v |-> "reject"],
+    hcl_unknown_function     |-> [t |-> {"http_hcl", "grpc_hcl"}, at |-> 1, v |-> "reject"],
+    hcl_unknown_local        |-> [t |-> {"http_hcl", "grpc_hcl"}, at |-> 1, v |-> "reject"],
+    hcl_unknown_root         |-> [t |-> {"http_hcl", "grpc_hcl"}, at |-> 1, v |-> "reject"],
+    hcl_cyclic_local_used    |-> [t |-> {"http_hcl", "grpc_hcl"}, at |-> 1, v |-> "reject"],
+    hcl_two_labels           |-> [t |-> {"http_hcl", "grpc_hcl"}, at |-> 1, v |-> "reject"],
+    hcl_no_label             |-> [t |-> {"http_hcl", "grpc_hcl"}, at |-> 1, v |-> "reject"],
+    hcl_label_unquoted_number |-> [t |-> {"http_hcl", "grpc_hcl"}, at |-> 1, v |-> "reject"],
+    hcl_unknown_block        |-> [t |-> {"http_hcl", "grpc_hcl"}, at |-> 1, v |-> "reject"],
+    hcl_unknown_attr         |-> [t |-> {"http_hcl", "grpc_hcl"}, at |-> 1, v |-> "reject"],
+    hcl_dup_attr             |-> [t |-> {"http_hcl", "grpc_hcl"}, at |-> 1, v |-> "reject"],
+    hcl_block_as_attr        |-> [t |-> {"http_hcl", "grpc_hcl"}, at |-> 1, v |-> "reject"],
+    hcl_attr_as_block        |-> [t |-> {"http_hcl", "grpc_hcl"}, at |-> 1, v |-> "reject"],
+    hcl_top_level_attr       |-> [t |-> {"http_hcl", "grpc_hcl"}, at |-> 1, v |-> "reject"],
+    hcl_nul_outside          |-> [t |-> {"http_hcl", "grpc_hcl"}, at |-> 1, v |-> "reject"],
+    hcl_json_text            |-> [t |-> {"http_hcl", "grpc_hcl"}, at |-> 1, v |-> "reject"],
+    hcl_deep_unclosed        |-> [t |-> {"http_hcl", "grpc_hcl"}, at |-> 1, v |-> "reject"],
+    hcl_empty_file           |-> [t |-> {"http_hcl", "grpc_hcl"}, at |-> 2, v |-> "reject"],
+    hcl_only_comment         |-> [t |-> {"http_hcl", "grpc_hcl"}, at |-> 2, v |-> "reject"],
+    hcl_crlf                 |-> [t |-> {"http_hcl", "grpc_hcl"}, at |-> 0, v |-> "deliver"],
+    hcl_cyclic_locals        |-> [t |-> {"http_hcl", "grpc_hcl"}, at |-> 1, v |-> "lax"],
+    hcl_self_local           |-> [t |-> {"http_hcl", "grpc_hcl"}, at |-> 1, v |-> "lax"],
+    hcl_dup_request          |-> [t |-> {"http_hcl", "grpc_hcl"}, at |-> 1, v |-> "lax"],
+    hcl_nul                  |-> [t |-> {"http_hcl", "grpc_hcl"}, at |-> 1, v |-> "lax"],
+    hcl_bom                  |-> [t |-> {"http_hcl", "grpc_hcl"}, at |-> 1, v |-> "lax"],
+    hcl_badutf8              |-> [t |-> {"http_hcl", "grpc_hcl"}, at |-> 1, v |-> "lax"],
+    hcl_deep_list            |-> [t |-> {"http_hcl", "grpc_hcl"}, at |-> 1, v |-> "lax"],
+    hcl_deep_parens          |-> [t |-> {"http_hcl", "grpc_hcl"}, at |-> 1, v |-> "lax"],
+    hcl_unary_chain          |-> [t |-> {"http_hcl", "grpc_hcl"}, at |-> 1, v |-> "lax"],
+    hcl_huge_weight          |-> [t |-> {"http_hcl", "grpc_hcl"}, at |-> 1, v |-> "lax"],
+    hcl_float_weight         |-> [t |-> {"http_hcl", "grpc_hcl"}, at |-> 1, v |-> "lax"],
+    hcl_string_weight        |-> [t |-> {"http_hcl", "grpc_hcl"}, at |-> 1, v |-> "lax"],
+    hcl_long_string          |-> [t |-> {"http_hcl", "grpc_hcl"}, at |-> 1, v |-> "lax"],
+    yaml_tab                 |-> [t |-> {"http_yaml", "grpc_yaml"}, at |-> 1, v |-> "reject"],
+    yaml_bad_indent          |-> [t |-> {"http_yaml", "grpc_yaml"}, at |-> 1, v |-> "reject"],
+    yaml_unclosed_quote      |-> [t |-> {"http_yaml", "grpc_yaml"}, at |-> 1, v |-> "reject"],
+    yaml_unclosed_flow       |-> [t |-> {"http_yaml", "grpc_yaml"}, at |-> 1, v |-> "reject"],
+    yaml_missing_colon       |-> [t |-> {"http_yaml", "grpc_yaml"}, at |-> 1, v |-> "reject"],
+    yaml_alias_undefined     |-> [t |-> {"http_yaml", "grpc_yaml"}, at |-> 1, v |-> "reject"],
+    yaml_nul                 |-> [t |-> {"http_yaml", "grpc_yaml"}, at |-> 1, v |-> "reject"],
+    yaml_scalar_doc          |-> [t |-> {"http_yaml", "grpc_yaml"}, at |-> 1, v |-> "reject"],
+    yaml_list_doc            |-> [t |-> {"http_yaml", "grpc_yaml"}, at |-> 1, v |-> "reject"],
+    yaml_tag_bad             |-> [t |-> {"http_yaml", "grpc_yaml"}, at |-> 1, v |-> "reject"],
+    yaml_unknown_key         |-> [t |-> {"http_yaml", "grpc_yaml"}, at |-> 1, v |-> "reject"],
+    yaml_empty_file          |-> [t |-> {"http_yaml", "grpc_yaml"}, at |-> 2, v |-> "reject"],
+    yaml_only_comment        |-> [t |-> {"http_yaml", "grpc_yaml"}, at |-> 2, v |-> "reject"],
+    yaml_crlf                |-> [t |-> {"http_yaml", "grpc_yaml"}, at |-> 0, v |-> "deliver"],
+    yaml_alias_ok            |-> [t |-> {"http_yaml", "grpc_yaml"}, at |-> 0, v |-> "deliver"],
+    yaml_dup_key             |-> [t |-> {"http_yaml", "grpc_yaml"}, at |-> 1, v |-> "lax"],
+    yaml_anchor_cycle        |-> [t |-> {"http_yaml", "grpc_yaml"}, at |-> 1, v |-> "lax"],
+    yaml_laughs              |-> [t |-> {"http_yaml", "grpc_yaml"}, at |-> 1, v |-> "lax"],
+    yaml_laughs_used         |-> [t |-> {"http_yaml", "grpc_yaml"}, at |-> 1, v |-> "lax"],
+    yaml_bom                 |-> [t |-> {"http_yaml", "grpc_yaml"}, at |-> 1, v |-> "lax"],
+    yaml_badutf8             |-> [t |-> {"http_yaml", "grpc_yaml"}, at |-> 1, v |-> "lax"],
+    yaml_second_doc          |-> [t |-> {"http_yaml", "grpc_yaml"}, at |-> 1, v |-> "lax"],
+    yaml_deep_flow           |-> [t |-> {"http_yaml", "grpc_yaml"}, at |-> 1, v |-> "lax"],
+    csv_crlf                 |-> [t |-> ScenarioTargets, at |-> 0, v |-> "deliver"],
+    csv_ragged_short         |-> [t |-> ScenarioTargets, at |-> 1, v |-> "lax"],
+    csv_ragged_long          |-> [t |-> ScenarioTargets, at |-> 1, v |-> "lax"],
+    csv_wrong_delim          |-> [t |-> ScenarioTargets, at |-> 1, v |-> "lax"],
+    csv_bare_quote           |-> [t |-> ScenarioTargets, at |-> 1, v |-> "lax"],
+    csv_quote_garbage        |-> [t |-> ScenarioTargets, at |-> 1, v |-> "lax"],
+    csv_only_header          |-> [t |-> ScenarioTargets, at |-> 1, v |-> "lax"],
+    csv_zero_bytes           |-> [t |-> ScenarioTargets, at |-> 1, v |-> "lax"],
+    csv_blank_lines          |-> [t |-> ScenarioTargets, at |-> 1, v |-> "lax"],
+    csv_cr_only              |-> [t |-> ScenarioTargets, at |-> 1, v |-> "lax"],
+    csv_nul                  |-> [t |-> ScenarioTargets, at |-> 1, v |-> "lax"],
+    csv_bom                  |-> [t |-> ScenarioTargets, at |-> 1, v |-> "lax"],
+    csv_badutf8              |-> [t |-> ScenarioTargets, at |-> 1, v |-> "lax"],
+    csv_huge_field           |-> [t |-> ScenarioTargets, at |-> 1, v |-> "lax"],
+    csv_many_fields          |-> [t |-> ScenarioTargets, at |-> 1, v |-> "lax"],
+    csv_binary               |-> [t |-> ScenarioTargets, at |-> 1, v |-> "lax"],
+    csv_is_dir               |-> [t |-> ScenarioTargets, at |-> 1, v |-> "lax"],
+    json_zero_bytes          |-> [t |-> ScenarioTargets, at |-> 1, v |-> "reject"],
+    json_deep_unclosed       |-> [t |-> ScenarioTargets, at |-> 1, v |-> "reject"],
+    json_nul                 |-> [t |-> ScenarioTargets, at |-> 1, v |-> "reject"],
+    json_is_dir              |-> [t |-> ScenarioTargets, at |-> 1, v |-> "lax"],
+    json_scalar              |-> [t |-> ScenarioTargets, at |-> 1, v |-> "lax"],
+    json_string              |-> [t |-> ScenarioTargets, at |-> 1, v |-> "lax"],
+    json_null                |-> [t |-> ScenarioTargets, at |-> 1, v |-> "lax"],
+    json_list_scalars        |-> [t |-> ScenarioTargets, at |-> 1, v |-> "lax"],
+    json_trailing_garbage    |-> [t |-> ScenarioTargets, at |-> 1, v |-> "lax"],
+    json_two_values          |-> [t |-> ScenarioTargets, at |-> 1, v |-> "lax"],
+    json_bom                 |-> [t |-> ScenarioTargets, at |-> 1, v |-> "lax"],
+    json_deep                |-> [t |-> ScenarioTargets, at |-> 1, v |-> "lax"],
+    json_dup_key             |-> [t |-> ScenarioTargets, at |-> 1, v |-> "lax"],
+    json_huge_number         |-> [t |-> ScenarioTargets, at |-> 1, v |-> "lax"],
+    json_huge_string         |-> [t |-> ScenarioTargets, at |-> 1, v |-> "lax"],
     prop_nokey       |-> [t |-> {"config"},      at |-> 1, v |-> "reject"],
     prop_nofile      |-> [t |-> {"config"},      at |-> 1, v |-> "reject"],
     prop_nosuchkey   |-> [t |-> {"config"},      at |-> 1, v |-> "reject"],
@@ -582,6 +680,10 @@ DescSucc(c, s) ==
     LET d == DescInfo(c) IN
     IF s.pos > LastStage(c.format) THEN
         { [e |-> Ev("End", "accepted"), s |-> [s EXCEPT !.res = "accepted"]] }
+    ELSE IF d.v = "lax" THEN
+        \* not pinned by the statement: an error at the stage where the defect is met or at any later one, or none
+        { [e |-> Ev("Stage", Stages[s.pos]), s |-> [s EXCEPT !.pos = @ + 1]] }
+        \cup (IF s.pos >= d.at /\ Variant # "swallow" THEN { [e |-> Ev("End", "rejected"), s |-> [s EXCEPT !.res = "rejected"]] } ELSE {})
     ELSE IF s.pos # d.at THEN
         { [e |-> Ev("Stage", Stages[s.pos]), s |-> [s EXCEPT !.pos = @ + 1]] }
     ELSE
